@@ -436,7 +436,7 @@ func c03Run(b core.Batch, r *core.Recorder) {
 func c03Plan(tier string, seed int64) []core.Batch {
 	nf, np := 20000, 144
 	if tier == "thorough" {
-		nf, np = 500000, 1200
+		nf, np = 2000000, 4000
 	}
 	bs := []core.Batch{{Name: "func", TimeoutS: 1200, Args: map[string]any{"mode": "func", "n": nf}}}
 	for _, be := range []string{"memory", "file"} {
